@@ -17,17 +17,22 @@ META = dict(
     level_text='Theorems in coq/Properties/Properties_C04.v: for every rational n/d and display precision p (hypothesis 10^p <= 2^(bits d + 767), true of every p <= 230) the integer ledger prints at p decimals is within half a unit of n/d*10^p (never a truncation); in_place_roundto is exact round-half-even; the display precision rule; what the pool learns is the max of the decimals and the or of the style flags of the amounts seen, independent of their order; the quantity reader recovers the integer and the precision from every plain decimal text the printer emits. The model (reader, learning, printer incl. grouping, decimal comma, quoting, zero trimming) is tied to the code by byte-for-byte comparison of thousands of printed amounts and their exact rationals, and the invalid_chars table and extend_by_digits are regenerated from the source on every run.',
     level_note='Trusted: Coq kernel; the MPFR model (mpfr_div at bits(n)+bits(d)+768 bits RNDN then %.*RNf half-even) is modelled, validated by the correspondence on ties; extraction/driver/python harness for the correspondence. The print->parse round trip is proved for plain decimal texts (digits and point); thousands marks, decimal comma, quoted symbols and symbol placement are covered by the correspondence and the re-read oracle only (stated as partial). Lot annotations are not modelled here.',
     design_ref='DESIGN.md section 7 C04, sections 6.3-6.4',
-    assumptions=['commodity symbols avoid s/m/h (predefined time units) and reserved words',
+    assumptions=['commodity symbols avoid s/m/h (predefined time units)',
                  'no commodity format directives in the generated journals',
                  'no backslash in commodity symbols (the stream reader takes it as an escape, the in-memory one does not)'],
 )
 
-SYMBOLS = ['$', 'EUR', 'AAA', '€', '₹', 'Ünit', 'M&M 2', 'K-9', 'x y', 'GBP', 'BTC', 'q1', '£', 'A1']
+SYMBOLS = ['$', 'EUR', 'AAA', '€', '₹', 'Ünit', 'M&M 2', 'K-9', 'x y', 'GBP', 'BTC', 'q1', '£', 'A1',
+           'oranges', 'notes', 'iftar']      # bare symbols that begin with a reserved word of the scanner (or, not, if)
+# symbols that spell, or begin with, a reserved word: the former must come back in quotes, the latter bare
+WORDS = ['and', 'div', 'else', 'false', 'if', 'or', 'not', 'true', 'andy', 'dividends', 'elsewhere', 'falsetto', 'ifs', 'orb',
+         'nothing', 'truest', 'oranges', 'android']
 
 
 def needs_quote(sym):
     """must this symbol be written in quotes for the reader to take it whole?  (every character the reader stops at)"""
-    return any(ch in ' \t\n\r0123456789.,;:?!-+*/^&|=<>{}[]()@~\x7f' or ch == '"' for ch in sym)
+    return (any(ch in ' \t\n\r0123456789.,;:?!-+*/^&|=<>{}[]()@~\x7f' or ch == '"' for ch in sym) or
+            sym in ('and', 'div', 'else', 'false', 'if', 'or', 'not', 'true'))
 
 
 class Written:
@@ -108,6 +113,12 @@ def gen_symbol_sweep(rng):
     for ch in chars:
         w = Written(rng, 'A', rng.choice(['pre', 'suf']), rng.random() < 0.5, False, False, 2)
         sym = 'Q%sZ' % ch
+        w.text = w.text.replace('A', '"%s"' % sym)
+        w.sym = sym
+        w.dcomma = False
+        out.append(w)
+    for sym in WORDS:
+        w = Written(rng, 'A', rng.choice(['pre', 'suf']), rng.random() < 0.5, False, False, 2)
         w.text = w.text.replace('A', '"%s"' % sym)
         w.sym = sym
         w.dcomma = False
